@@ -22,6 +22,24 @@ func (e *Exec) symTime(name string) TimeVal {
 	return TimeVal{NS: t}
 }
 
+// intRange: every sdk.Int that exists is below 2^255 (stated when the range checks are modelled)
+func (e *Exec) intRange(t *Term) *Term {
+	if e.env != nil && e.env.ovf {
+		e.addPC(e.tt.IntCmp("<", t, e.tt.Int(new(big.Int).Lsh(big.NewInt(1), 255))))
+	}
+	return t
+}
+
+// symTimeText: an instant as a pricing text can carry it - RFC 3339 admits year 0000, which time.Parse reads
+var minTextNS = new(big.Int).Mul(big.NewInt(-366*86400), big.NewInt(1_000_000_000))
+
+func (e *Exec) symTimeText(name string) TimeVal {
+	t := e.input(name, SInt)
+	e.addPC(e.tt.IntCmp(">=", t, e.tt.Int(minTextNS)))
+	e.addPC(e.tt.IntCmp("<=", t, e.tt.Int(maxTimeNS)))
+	return TimeVal{NS: t}
+}
+
 func (e *Exec) symDiscount(name string) *Term {
 	t := e.input(name, SInt)
 	t.NN = true
@@ -117,43 +135,75 @@ func init() {
 		e.choices[e.strArg(a[0])] = d
 		return e.tt.BV(64, uint64(d))
 	})
-	reg("vh/vf.Amount", func(e *Exec, a []Value) Value { return bv(e.nonneg(e.strArg(a[0]))) })
+	reg("vh/vf.Amount", func(e *Exec, a []Value) Value { return bv(e.intRange(e.nonneg(e.strArg(a[0])))) })
+	reg("vh/vf.CheckOverflow", func(e *Exec, a []Value) Value {
+		if e.env == nil {
+			panic(abort{"vf.CheckOverflow before vf.Env"})
+		}
+		e.env.ovf = true
+		return nil
+	})
 	reg("vh/vf.Dec", func(e *Exec, a []Value) Value { return bv(e.nonneg(e.strArg(a[0]))) })
 	reg("vh/vf.Time", func(e *Exec, a []Value) Value { return e.symTime(e.strArg(a[0])) })
-	reg("vh/vf.PricingText", func(e *Exec, a []Value) Value {
-		name := e.strArg(a[0])
-		nT := e.concretize(a[1].(*Term), 6)
-		nV := e.concretize(a[2].(*Term), 6)
-		at := &PricingAtt{Price: e.nonneg(name + ".price")}
-		for i := 0; i < nT; i++ {
-			at.ByTime = append(at.ByTime, PromoT{
-				Start: e.symTime(fmt.Sprintf("%s.t%d.start", name, i)),
-				End:   e.symTime(fmt.Sprintf("%s.t%d.end", name, i)),
-				Disc:  e.symDiscount(fmt.Sprintf("%s.t%d.disc", name, i)),
-			})
-		}
-		for i := 0; i < nV; i++ {
-			v := e.input(fmt.Sprintf("%s.v%d.vol", name, i), SBV64)
-			e.addPC(e.tt.Not(e.tt.Eq(v, e.tt.BV(64, 0))))
-			// JSON numbers above 2^63 do not survive the schema library's integer check; stay below
-			e.addPC(e.tt.BVCmp("bvult", v, e.tt.BV(64, 1<<53)))
-			at.ByVol = append(at.ByVol, PromoV{Vol: v, Disc: e.symDiscount(fmt.Sprintf("%s.v%d.disc", name, i))})
-		}
-		// schema: uniqueItems
-		for i := range at.ByTime {
-			for j := 0; j < i; j++ {
-				same := e.tt.And(e.tt.And(e.tt.Eq(at.ByTime[i].Start.NS, at.ByTime[j].Start.NS), e.tt.Eq(at.ByTime[i].End.NS, at.ByTime[j].End.NS)), e.tt.Eq(at.ByTime[i].Disc, at.ByTime[j].Disc))
-				e.addPC(e.tt.Not(same))
+	pricingText := func(loose bool) func(e *Exec, a []Value) Value {
+		return func(e *Exec, a []Value) Value {
+			name := e.strArg(a[0])
+			nT := e.concretize(a[1].(*Term), 6)
+			nV := e.concretize(a[2].(*Term), 6)
+			at := &PricingAtt{Price: e.intRange(e.nonneg(name + ".price"))}
+			valid := e.tt.Bool(true)
+			disc := func(n string) *Term {
+				if !loose {
+					return e.symDiscount(n)
+				}
+				// a discount text the parser reads but the schema may refuse (1 or more)
+				t := e.input(n, SInt)
+				t.NN = true
+				e.addPC(e.tt.IntCmp(">", t, e.tt.Int64(0)))
+				e.addPC(e.tt.IntCmp("<", t, e.tt.Int(new(big.Int).Mul(big.NewInt(2), prec))))
+				valid = e.tt.And(valid, e.tt.IntCmp("<", t, e.tt.Int(prec)))
+				return t
 			}
-		}
-		for i := range at.ByVol {
-			for j := 0; j < i; j++ {
-				same := e.tt.And(e.tt.Eq(at.ByVol[i].Vol, at.ByVol[j].Vol), e.tt.Eq(at.ByVol[i].Disc, at.ByVol[j].Disc))
-				e.addPC(e.tt.Not(same))
+			for i := 0; i < nT; i++ {
+				at.ByTime = append(at.ByTime, PromoT{
+					Start: e.symTimeText(fmt.Sprintf("%s.t%d.start", name, i)),
+					End:   e.symTimeText(fmt.Sprintf("%s.t%d.end", name, i)),
+					Disc:  disc(fmt.Sprintf("%s.t%d.disc", name, i)),
+				})
 			}
+			for i := 0; i < nV; i++ {
+				v := e.input(fmt.Sprintf("%s.v%d.vol", name, i), SBV64)
+				nz := e.tt.Not(e.tt.Eq(v, e.tt.BV(64, 0)))
+				if loose {
+					valid = e.tt.And(valid, nz) // the schema wants a volume of at least 1
+				} else {
+					e.addPC(nz)
+				}
+				// JSON numbers above 2^63 do not survive the schema library's integer check; stay below
+				e.addPC(e.tt.BVCmp("bvult", v, e.tt.BV(64, 1<<53)))
+				at.ByVol = append(at.ByVol, PromoV{Vol: v, Disc: disc(fmt.Sprintf("%s.v%d.disc", name, i))})
+			}
+			// schema: uniqueItems
+			for i := range at.ByTime {
+				for j := 0; j < i; j++ {
+					same := e.tt.And(e.tt.And(e.tt.Eq(at.ByTime[i].Start.NS, at.ByTime[j].Start.NS), e.tt.Eq(at.ByTime[i].End.NS, at.ByTime[j].End.NS)), e.tt.Eq(at.ByTime[i].Disc, at.ByTime[j].Disc))
+					e.addPC(e.tt.Not(same))
+				}
+			}
+			for i := range at.ByVol {
+				for j := 0; j < i; j++ {
+					same := e.tt.And(e.tt.Eq(at.ByVol[i].Vol, at.ByVol[j].Vol), e.tt.Eq(at.ByVol[i].Disc, at.ByVol[j].Disc))
+					e.addPC(e.tt.Not(same))
+				}
+			}
+			if loose {
+				at.Valid = valid
+			}
+			return StrVal{B: e.constStr("<pricing:" + name + ">").B, Att: at}
 		}
-		return StrVal{B: e.constStr("<pricing:" + name + ">").B, Att: at}
-	})
+	}
+	reg("vh/vf.PricingText", pricingText(false))
+	reg("vh/vf.PricingTextLoose", pricingText(true))
 
 	// ---- logic
 	reg("vh/vf.And", func(e *Exec, a []Value) Value { return e.tt.And(a[0].(*Term), a[1].(*Term)) })
